@@ -26,10 +26,12 @@ def explore(ctx, which):
     dist = {"rulesets": 0, "preterminals": 0, "with_ties": 0, "repeated_type": 0, "single_group_var": 0,
             "capped": 0, "load_rejected": 0, "flags": {}}
     for k in range(n):
-        rs = rulesets.gen_ruleset(ctx.rng) if k % 10 != 3 else rulesets.gen_near_tie_ruleset(ctx.rng)
+        rs = (rulesets.gen_near_tie_ruleset(ctx.rng) if k % 10 == 3 else rulesets.gen_close_lines_ruleset(ctx.rng) if k % 10 == 7
+              else rulesets.gen_ruleset(ctx.rng))
         sb, scs, folder = ctx.rng.choice(FLAGSETS)
         qsize = [None, None, 2, 6, 16][k % 5]
         dist["near_tie_family"] = dist.get("near_tie_family", 0) + (k % 10 == 3)
+        dist["close_adjacent_lines_family"] = dist.get("close_adjacent_lines_family", 0) + (k % 10 == 7)
         dist["small_max_queue_size"] = dist.get("small_max_queue_size", 0) + (qsize is not None)
         try:
             g = impl_next.load_grammar(rs, sc, sb, scs, folder)
@@ -127,6 +129,32 @@ def oracle(which, g, items, problems, replay):
                 vio.append({"sig": "C01:product", "what": "reported probability %r is not the left-to-right product %r for %r"
                             % (it["prob"], p, it["pt"]), "replay": dict(replay, index=i)})
                 break
+        # ... and the terminal probabilities are those of the ruleset FILES: every value of a chosen group stands in its file
+        # with exactly the probability the group carries (a loader that merges "close" lines emits the less probable values too early)
+        rs_ = replay.get("ruleset") if isinstance(replay, dict) else None
+        if rs_:
+            filep, bad = {}, None
+            for name, lines in rs_["files"].items():
+                for v, p_ in lines:
+                    filep.setdefault(name, {}).setdefault(v, []).append(float(p_))
+            flags_ = [replay.get("skip_brute", False), replay.get("skip_case", False), replay.get("folder", "Grammar")]
+            for i, it in enumerate(items):
+                for t, ix in it["pt"]:
+                    if t[0] == "M" or t not in filep or (t[0] == "C" and flags_[1]):
+                        continue
+                    grp = g.grammar[t][ix]
+                    for v in grp["values"]:
+                        if filep[t].get(v) != [grp["prob"]]:
+                            bad = (i, t, ix, v, filep[t].get(v), grp["prob"])
+                            break
+                    if bad:
+                        break
+                if bad:
+                    break
+            if bad:
+                vio.append({"sig": "C01:product:file", "what": "pre-terminal %d uses group %s[%d] with probability %r, but its value %r stands in "
+                            "the ruleset file with probability %r: the guesses built from it are emitted at the wrong place of the order"
+                            % (bad[0], bad[1], bad[2], bad[5], bad[3], bad[4]), "replay": dict(replay, index=bad[0])})
         for kind, i in problems:
             vio.append({"sig": "C01:" + kind, "what": "%s after pop %d" % (kind, i), "replay": dict(replay, index=i)})
             break
